@@ -1389,6 +1389,34 @@ theorem leaders_after_recreate (es ns : List Event) (db : Nat) (a : Assignment) 
     exact ((leadersOnNode_spec st.shards id hinv.shards_keys db sid).1).mpr
       ⟨ss, s, hss, mem_of_lookup ss sid s hs, hl⟩
 
+/-- the repository side of a re-creation: in every reachable world, a drop of `db` followed by a config event
+for the same name (any shard count — also the dropped incarnation's —, any replica factor, any draws, any faults, any
+lag of the node watch) persists, if anything, an assignment in which EVERY shard — not only ids beyond the dropped
+incarnation's — has exactly `rf` distinct nodes registered at that moment: the handler finds nothing of the dropped
+incarnation and takes the create branch -/
+theorem world_recreate_places_every_shard (es : List WEvent) (db : Nat) (numShards rf : Int)
+    (start shift : Nat) (f : Faults) :
+    let w := wrun World.init es
+    let w' := wstep (wstep w (.drop db)) (.cfg db numShards rf start shift f)
+    ∀ a' s rs, Map.lookup w'.store.asgs db = some a' → Map.lookup a' s = some rs →
+      ValidReplicas w.store.reg rf.toNat rs := by
+  intro w w' a' s rs hl hs
+  have hreg : w.store.reg.Nodup := (world_invariant es).1
+  have hnone : Map.lookup (Map.erase w.store.asgs db) db = none := Map.lookup_erase_self _ _
+  exact cfg_new_shards_on_registered { w.store with asgs := Map.erase w.store.asgs db } (step w.st (.dropDb db)).live
+    db numShards rf start shift f hreg
+    (by intro a h; rw [hnone] at h; cases h) a' s rs hl hs
+    (by intro a h; rw [hnone] at h; cases h)
+
+/-- non-vacuity of `world_recreate_places_every_shard`: nodes 1,2,3 register, db 0 is created with 3 shards
+(start 0), node 1 crashes, db 0 is dropped and created again with 3 shards (start 1): shard 0 is on node 3 now -/
+example :
+    let w := wrun World.init [.register 1, .register 2, .register 3, .cfg 0 3 1 0 0 Faults.none, .crash 1]
+    let w' := wstep (wstep w (.drop 0)) (.cfg 0 3 1 1 0 Faults.none)
+    Map.lookup w.store.asgs 0 = some [(0, [1]), (1, [2]), (2, [3])] ∧
+    Map.lookup w'.store.asgs 0 = some [(0, [3]), (1, [2]), (2, [3])] := by
+  decide
+
 /-- no hidden derived state: EVERY field (exported or not) of the manager, of the storage-cluster controller and of
 `models.ShardAssignment` — the model's `St` is `storage.state` (live / asg / shards, see `tie_published_shape` for
 `models.StorageState`'s own fields) plus `databases`; `shardAssignments` is written by the assignment / drop handlers
